@@ -666,15 +666,22 @@ func fsClientErrClass(err error, wrote bool) string {
 
 // runFsClient drives the real client; returns the op, the real reply line, and oracle findings.
 func runFsClient(c *Ctx, g *fsGen, cs fsClientCase) (op, real string, bad []Violation) {
-	// Another process may create the very same /tmp/FS_* name between our look and the client's mkdir
-	// (parallel runs of this check, the library's own tests): such a case is simply run again.
+	// Another process may create the very same /tmp/FS_* name between our look and the client's mkdir,
+	// or remove / create something under /tmp while the case runs (parallel checks, the library's own
+	// tests): /tmp is shared. The exchange itself is deterministic (scripted server, no clock), so a
+	// finding of the library shows again when the case is run again on its own; one that came from
+	// outside does not. A case is therefore reported only when it fails on every one of three runs.
 	for try := 0; ; try++ {
 		var raced bool
 		op, real, bad, raced = runFsClientOnce(c, g, cs)
-		if !raced || try == 2 {
+		if (!raced && len(bad) == 0) || try == 2 {
 			return
 		}
-		c.Count("client:rerun-after-foreign-interference")
+		if raced {
+			c.Count("client:rerun-after-foreign-interference")
+		} else {
+			c.Count("client:violation-rechecked")
+		}
 		time.Sleep(5 * time.Millisecond)
 	}
 }
@@ -933,7 +940,7 @@ func fsServerErrClass(err error) string {
 	case strings.Contains(m, "directory verification failed"):
 		return "verify"
 	}
-	return "other:" + strings.ReplaceAll(m, " ", "_")
+	return "other" // unknown text: a class only, never the text
 }
 
 var fsServerKinds = []string{"none", "dir700", "dir700", "file700", "dir755", "dir750", "dir701", "dir710", "dir600", "dir500", "dir000", "dir777", "dir1700", "dir2700", "dir4700",
@@ -1006,7 +1013,20 @@ func fsMakeObject(g *fsGen, p, kind string) (extra []string, skipped bool) {
 	return extra, false
 }
 
+// runFsServer: the case, run again on its own when it produced a finding (see runFsClient: /tmp is
+// shared with other processes; the exchange is deterministic up to the random directory name).
 func runFsServer(c *Ctx, g *fsGen, cs fsServerCase) (op, real string, bad []Violation, skipped bool) {
+	for try := 0; ; try++ {
+		op, real, bad, skipped = runFsServerOnce(c, g, cs)
+		if skipped || len(bad) == 0 || try == 2 {
+			return
+		}
+		c.Count("server:violation-rechecked")
+		time.Sleep(5 * time.Millisecond)
+	}
+}
+
+func runFsServerOnce(c *Ctx, g *fsGen, cs fsServerCase) (op, real string, bad []Violation, skipped bool) {
 	conn := &fsConn{}
 	var sentPath string
 	var gotPath, handled bool
@@ -1141,13 +1161,28 @@ func runFsServer(c *Ctx, g *fsGen, cs fsServerCase) (op, real string, bad []Viol
 // ---------------------------------------------------------------------------------------------
 // honest end-to-end over TCP loopback
 
+// runFsHonest: a finding is reported only when the exchange, run again on its own, fails again (the
+// directory lives in the shared /tmp for the duration of the exchange).
 func runFsHonest(c *Ctx, network, addr string, remote bool) (ran bool, bad []Violation) {
+	for try := 0; ; try++ {
+		ran, bad = runFsHonestOnce(c, network, addr, remote)
+		if !ran || len(bad) == 0 || try == 2 {
+			return
+		}
+		c.Count("honest:violation-rechecked")
+		time.Sleep(20 * time.Millisecond)
+	}
+}
+
+func runFsHonestOnce(c *Ctx, network, addr string, remote bool) (ran bool, bad []Violation) {
 	l, err := net.Listen(network, addr)
 	if err != nil {
 		return false, nil
 	}
 	defer l.Close()
-	_, port, _ := net.SplitHostPort(l.Addr().String())
+	// the directory of THIS exchange is the one named on this connection (never "anything in /tmp
+	// that carries our port number": other checks have theirs in flight at the same time)
+	rec := &fsOwnRecorder{names: map[string]bool{}}
 	type sres struct {
 		user string
 		err  error
@@ -1162,7 +1197,7 @@ func runFsHonest(c *Ctx, network, addr string, remote bool) (ran bool, bad []Vio
 		defer conn.Close()
 		ctx, cancel := context.WithTimeout(bg, 10*time.Second)
 		defer cancel()
-		u, err := security.VerifFSAuthServer(ctx, stream.NewStream(conn), remote)
+		u, err := security.VerifFSAuthServer(ctx, stream.NewStream(rec.wrap(conn)), remote)
 		ch <- sres{u, err}
 	}()
 	conn, err := net.DialTimeout(network, l.Addr().String(), 5*time.Second)
@@ -1172,7 +1207,7 @@ func runFsHonest(c *Ctx, network, addr string, remote bool) (ran bool, bad []Vio
 	defer conn.Close()
 	ctx, cancel := context.WithTimeout(bg, 10*time.Second)
 	defer cancel()
-	cerr := security.VerifFSAuthClient(ctx, stream.NewStream(conn), remote)
+	cerr := security.VerifFSAuthClient(ctx, stream.NewStream(rec.wrap(conn)), remote)
 	var sr sres
 	select {
 	case sr = <-ch:
@@ -1185,11 +1220,14 @@ func runFsHonest(c *Ctx, network, addr string, remote bool) (ran bool, bad []Vio
 		bad = append(bad, Violation{Property: "C18", Key: "C18:honest-exchange-fails:" + network, What: "a real server and a real client on one machine do not complete FS authentication with the owner as identity",
 			Ops: ops, Expected: "success, identity = current user", Observed: fmt.Sprintf("client err=%v server err=%v user=%q", cerr, sr.err, sr.user)})
 	}
-	ents, _ := os.ReadDir(fsBase)
-	for _, e := range ents {
-		if strings.HasPrefix(e.Name(), "FS_") && strings.Contains(e.Name(), "_"+port+"_") {
-			bad = append(bad, Violation{Property: "C18", Key: "C18:honest-exchange-leaves-directory", What: "the exchange left its directory behind", Ops: ops, Expected: "removed", Observed: e.Name()})
-			_ = os.Remove(filepath.Join(fsBase, e.Name()))
+	named := rec.all()
+	if len(named) == 0 && cerr == nil && sr.err == nil {
+		bad = append(bad, Violation{Property: "C18", Key: "C18:honest-exchange-names-no-directory", What: "the exchange succeeded although no directory under the base was named on the connection", Ops: ops, Expected: "one /tmp/FS_* path sent by the server", Observed: "none seen"})
+	}
+	for _, d := range named {
+		if _, e := os.Lstat(d); e == nil {
+			bad = append(bad, Violation{Property: "C18", Key: "C18:honest-exchange-leaves-directory", What: "the exchange left its directory behind", Ops: ops, Expected: "removed", Observed: filepath.Base(d)})
+			_ = os.Remove(d)
 		}
 	}
 	return true, bad
@@ -1225,33 +1263,31 @@ func fsViolate(c *Ctx, v Violation) {
 }
 
 func fsWorkDir(c *Ctx) string {
-	// <root>/lean/.lake/build/bin/cedar_oracle -> <root>/.work
+	// <root>/lean/.lake/build/bin/cedar_oracle -> <root>/.work when that is this checkout's oracle;
+	// otherwise the checkout the driver / the executable belongs to (workRoot). No fixed path.
 	root := filepath.Dir(filepath.Dir(filepath.Dir(filepath.Dir(filepath.Dir(c.Oracle)))))
-	for _, d := range []string{filepath.Join(root, ".work"), "/verif/.work"} {
-		if os.MkdirAll(d, 0o755) == nil {
+	if filepath.Base(filepath.Dir(filepath.Dir(filepath.Dir(filepath.Dir(c.Oracle))))) == "lean" {
+		if d := filepath.Join(root, ".work"); os.MkdirAll(d, 0o755) == nil {
 			return d
 		}
 	}
-	return os.TempDir()
+	return workRoot()
 }
 
 func runFsPath(c *Ctx) (err error) {
 	c.Res.Rule = "server-supplied paths from a component grammar (base dir, other/nested/symlinked parents, '..', '.', empty and doubled slashes, relative forms, recognised and near-miss leaf names, IPv4/IPv6/hostname address fields spelled several ways, ports equal / near / unrelated to the connection's, over-long fields, control and non-ASCII bytes) plus 1–2 byte-level mutations of accepted paths, junk, and every path of up to 4 (thorough 5) components over a small component alphabet, for FS and FS_REMOTE and 14 kinds of connection address; fed (a) to validateFSAuthPath, fsAddrLeaf, verifyFSPathEndpoint through hooks and (b) through the whole client exchange against a scripted server (well-formed, split, NUL-less, trailing-data and broken path messages; every verdict message; failing send; object already present) with filesystem snapshots before / at reply time / after; server side: every kind of object a client might leave (25 kinds) x client replies; each observable compared with the Lean model and judged by a reference recogniser written from the statement; distinct by op line; non-trivial = path accepted, or rejected for a reason other than emptiness"
-	// runs started from the same checkout use the same /tmp names for the same seed: one at a time
-	// ... and runs from DIFFERENT checkouts share the base directory too: a second lock next to it
-	if lk, e := os.OpenFile(filepath.Join(os.TempDir(), ".cedar-verif-fspath.lock"), os.O_CREATE|os.O_RDWR, 0o666); e == nil {
-		if syscall.Flock(int(lk.Fd()), syscall.LOCK_EX) == nil {
-			defer syscall.Flock(int(lk.Fd()), syscall.LOCK_UN)
+	// runs of this engine share /tmp/FS_* (and, from the same checkout, the work directory): one at a
+	// time. The lock files are opened read-only (flock needs no write access), created world-readable
+	// regardless of the umask, so that a run as another user (root / non-root) can still take the lock;
+	// a lock that cannot be taken is an engine error -- never "go on without it".
+	for _, lp := range []string{filepath.Join(os.TempDir(), ".cedar-verif-fspath.lock"), filepath.Join(fsWorkDir(c), "fspath.lock")} {
+		unlock, e := fsFlock(lp)
+		if e != nil {
+			return fmt.Errorf("fspath: cannot take the lock %s (concurrent runs share /tmp/FS_*): %w", lp, e)
 		}
-		defer lk.Close()
+		defer unlock()
 	}
-	if lk, e := os.OpenFile(filepath.Join(fsWorkDir(c), "fspath.lock"), os.O_CREATE|os.O_RDWR, 0o644); e == nil {
-		if syscall.Flock(int(lk.Fd()), syscall.LOCK_EX) == nil {
-			defer syscall.Flock(int(lk.Fd()), syscall.LOCK_UN)
-		}
-		defer lk.Close()
-	}
-	sandbox, e := os.MkdirTemp(fsWorkDir(c), "fspath-")
+	sandbox, e := os.MkdirTemp(fsWorkDir(c), scratchPrefix("fspath"))
 	if e != nil {
 		return e
 	}
@@ -1274,7 +1310,9 @@ func runFsPath(c *Ctx) (err error) {
 		os.Stdout = devnull
 		defer func() { os.Stdout = saved; devnull.Close() }()
 	}
-	g := &fsGen{c: c, sandbox: sandbox, tag: fmt.Sprintf("v%dq", c.Seed%1000)}
+	// names under /tmp carry the process id besides the seed: two instances that do meet (different
+	// users, lock on another filesystem) at least never use the same names
+	g := &fsGen{c: c, sandbox: sandbox, tag: "v" + strconv.FormatInt((c.Seed%1000)*1679+int64(os.Getpid()%1679), 36) + "q"} // at most 6 characters: the suffix stays within 16
 	var cases []Case
 	one := func(label, op, real string) {
 		cases = append(cases, Case{Label: label, Ops: []string{op}, Real: []string{real}})
@@ -1572,7 +1610,13 @@ func runFsPath(c *Ctx) (err error) {
 
 	// ---- clean-up that cannot succeed: a foreign object appears inside the directory the client made ----
 	for i, n := 0, c.Pick(6, 40); i < n; i++ {
-		for _, v := range fsCleanupForeign(c, g, g.n(2) == 0) {
+		remote := g.n(2) == 0
+		bad := fsCleanupForeign(c, g, remote)
+		for try := 0; try < 2 && len(bad) > 0; try++ { // run again on its own before reporting (shared /tmp)
+			c.Count("client:violation-rechecked")
+			bad = fsCleanupForeign(c, g, remote)
+		}
+		for _, v := range bad {
 			fsViolate(c, v)
 		}
 	}
@@ -1617,12 +1661,25 @@ func runFsPath(c *Ctx) (err error) {
 
 	// ---- honest exchanges over TCP loopback ----
 	for _, nw := range [][2]string{{"tcp4", "127.0.0.1:0"}, {"tcp6", "[::1]:0"}} {
+		if nw[0] == "tcp6" {
+			// a machine without an IPv6 loopback is a property of the environment, said so in the evidence;
+			// any other failure to set the exchange up counts against planned-vs-run
+			if l, e := net.Listen("tcp6", "[::1]:0"); e != nil {
+				c.Count("honest:no-ipv6-loopback-on-this-machine")
+				c.Res.Notes = append(c.Res.Notes, "NOT EXERCISED: honest FS exchange over tcp6 — this machine has no IPv6 loopback ([::1] cannot be listened on); IPv6-literal directory names were exercised through the validator and the scripted client only")
+				continue
+			} else {
+				l.Close()
+			}
+		}
 		for _, remote := range []bool{false, true} {
+			c.Planned("fspath-honest-exchanges", 1)
 			ran, bad := runFsHonest(c, nw[0], nw[1], remote)
 			if !ran {
 				c.Count("honest:unavailable:" + nw[0])
 				continue
 			}
+			c.Ran("fspath-honest-exchanges", 1)
 			c.Count("honest:" + nw[0])
 			c.Res.Evaluations++
 			for _, v := range bad {
@@ -1694,4 +1751,18 @@ func fsCleanupForeign(c *Ctx, g *fsGen, remote bool) (bad []Violation) {
 	_ = os.Remove(intruder)
 	_ = os.Remove(target)
 	return bad
+}
+
+// fsFlock takes an exclusive advisory lock on path (created if missing, mode 0666 whatever the umask).
+func fsFlock(path string) (unlock func(), err error) {
+	lk, err := os.OpenFile(path, os.O_RDONLY|os.O_CREATE, 0o666)
+	if err != nil {
+		return nil, err
+	}
+	_ = os.Chmod(path, 0o666) // ours if we created it; harmless failure if somebody else's
+	if err := syscall.Flock(int(lk.Fd()), syscall.LOCK_EX); err != nil {
+		lk.Close()
+		return nil, err
+	}
+	return func() { _ = syscall.Flock(int(lk.Fd()), syscall.LOCK_UN); lk.Close() }, nil
 }
